@@ -6,6 +6,7 @@ import (
 	"io"
 	"strconv"
 	"strings"
+	"unicode"
 )
 
 // строчка в tl
@@ -44,45 +45,26 @@ func ParseSchema(source string) (*Schema, error) {
 		}
 
 		if cur.IsNext("//") {
-			cur.SkipSpaces()
-			ctype, err := cur.ReadAt(' ')
+			// comment takes the rest of the line, annotation or not
+			line, err := cur.ReadAt('\n')
 			if err != nil {
-				return nil, fmt.Errorf("read comment type: %w", err)
+				return nil, fmt.Errorf("read comment: %w", err)
 			}
+			cur.Skip(1)
 
-			cur.SkipSpaces()
-
+			ctype, comment := splitFirstWord(line)
 			switch ctype {
 			case "@type":
-				comment, err := cur.ReadAt('\n')
-				if err != nil {
-					return nil, fmt.Errorf("read comment: %w", err)
-				}
-				nextTypeComment = strings.TrimSpace(comment)
+				nextTypeComment = comment
 			case "@enum", "@constructor", "@method":
-				comment, err := cur.ReadAt('\n')
-				if err != nil {
-					return nil, fmt.Errorf("read comment: %w", err)
-				}
-				constructorComment = strings.TrimSpace(comment)
+				constructorComment = comment
 			case "@param":
-				pname, err := cur.ReadAt(' ')
-				if err != nil {
-					return nil, fmt.Errorf("read comment param name: %w", err)
-				}
-
-				cur.SkipSpaces()
-				pcomment, err := cur.ReadAt('\n')
-				if err != nil {
-					return nil, fmt.Errorf("read comment param: %w", err)
-				}
-
-				paramComments[pname] = strings.TrimSpace(pcomment)
+				pname, pcomment := splitFirstWord(comment)
+				paramComments[pname] = pcomment
 			default:
-				return nil, fmt.Errorf("unknown comment type: %s", ctype)
+				// plain comment without annotation, nothing to remember
 			}
 
-			cur.Skip(1)
 			continue
 		}
 
@@ -145,6 +127,15 @@ func ParseSchema(source string) (*Schema, error) {
 		Methods:      methods,
 		TypeComments: typeComments,
 	}, nil
+}
+
+// splitFirstWord splits "  word   rest of line " to "word" and "rest of line"
+func splitFirstWord(s string) (word, rest string) {
+	s = strings.TrimSpace(s)
+	if i := strings.IndexFunc(s, unicode.IsSpace); i >= 0 {
+		return s[:i], strings.TrimSpace(s[i:])
+	}
+	return s, ""
 }
 
 func parseDefinition(cur *Cursor) (def definition, err error) {
